@@ -24,6 +24,7 @@ pub struct CasePlan {
 
 pub struct CaseOut {
     pub ops: Vec<Op>,
+    pub soft: Vec<Deviation>,
     pub dev: Option<Deviation>,
     pub stats: Counts,
     pub class: String,
@@ -96,6 +97,19 @@ pub fn plan(property: &str, seed: u64, idx: u64, thorough: bool) -> CasePlan {
             p.max_val = 20_000;
             steps = rng.range(30, 250) as usize;
         }
+        "C18" => {
+            p.n_ks = rng.range(2, 4) as u8;
+            p.ks_prefix = true;
+            p.w_reopen = 2;
+            p.w_major = 3;
+            p.w_rotate = 8;
+            p.w_ingest = 1;
+            p.w_remove_weak = 0;
+            p.no_weak = true;
+            p.big_values = false;
+            p.max_val = 8_000;
+            steps = rng.range(40, 300) as usize;
+        }
         "C12" => {
             p.n_ks = rng.range(2, 5) as u8;
             p.w_create = 5;
@@ -144,7 +158,11 @@ pub fn plan(property: &str, seed: u64, idx: u64, thorough: bool) -> CasePlan {
         workers: if threaded { rng.range(1, 3) as usize } else { 0 },
         journal_lz4: rng.chance(1, 2),
         manual_persist: false,
-        assigner: None,
+        assigner: if property == "C18" {
+            Some(crate::exec::filt::assigner())
+        } else {
+            None
+        },
     };
     CasePlan {
         property: property.to_string(),
@@ -168,6 +186,10 @@ fn is_maintenance(op: &Op) -> bool {
 fn post_op(ex: &mut Exec, plan: &CasePlan, op: &Op, rng: &mut Rng) -> R<()> {
     match op {
         Op::Reopen { .. } => {
+            if plan.property == "C18" {
+                ex.sweep_all(1)?;
+                return filter_in_effect(ex);
+            }
             if plan.property == "C11" {
                 seqno_check(ex)?;
             }
@@ -216,6 +238,32 @@ fn post_op(ex: &mut Exec, plan: &CasePlan, op: &Op, rng: &mut Rng) -> R<()> {
         }
         _ => {}
     }
+    Ok(())
+}
+
+/// C18: the assignment is in effect: after everything is flushed and major_compact returned, keys
+/// with a remove/replace verdict are filtered in assigned keyspaces; unassigned ones equal the model.
+fn filter_in_effect(ex: &mut Exec) -> R<()> {
+    let kss: Vec<u8> = ex.model.ks.keys().copied().collect();
+    for ks in kss {
+        let h = ex.handle(ks)?;
+        h.rotate_memtable()
+            .map_err(|e| Deviation::new("unexpected-error:rotate", format!("{e:?}")))?;
+        ex.drain()?;
+        h.major_compact()
+            .map_err(|e| Deviation::new("unexpected-error:major_compact", format!("{e:?}")))?;
+        if crate::exec::filt::assigned(ks) {
+            ex.filtered_check(ks, true)?;
+            ex.stats.inc("filter.strict_checks");
+        } else {
+            ex.sweep_ks(ks, 1)?;
+            ex.stats.inc("filter.unassigned_exact_checks");
+        }
+    }
+    ex.stats.add(
+        "filter.invocations",
+        crate::exec::filt::INVOCATIONS.swap(0, std::sync::atomic::Ordering::Relaxed),
+    );
     Ok(())
 }
 
@@ -318,6 +366,7 @@ pub fn run_case(plan: &CasePlan, seed: u64, idx: u64, fixed_ops: Option<Vec<Op>>
     );
     hooks::reset_counts();
     let mut ex = Exec::new(&dir, plan.dbcfg.clone(), mix(&[seed, idx, 7]));
+    ex.filtered = plan.property == "C18";
     let res = catch_unwind(AssertUnwindSafe(|| -> R<()> {
         let mut rng = Rng::new(mix(&[seed, idx, 99]));
         let mut gen = Gen::new(mix(&[seed, idx, 1]), plan.profile.clone());
@@ -372,6 +421,9 @@ pub fn run_case(plan: &CasePlan, seed: u64, idx: u64, fixed_ops: Option<Vec<Op>>
         // final: drain background work, deep sweep, close, reopen-free end
         ex.drain()?;
         ex.sweep_all(1)?;
+        if ex.filtered {
+            filter_in_effect(&mut ex)?;
+        }
         ex.check_names()?;
         // structural coverage facts
         let hs: Vec<fjall::Keyspace> = ex.handles.values().cloned().collect();
@@ -402,10 +454,12 @@ pub fn run_case(plan: &CasePlan, seed: u64, idx: u64, fixed_ops: Option<Vec<Op>>
     fjall::verif::set_journal_pos_scale(1);
     let mut stats = ex.stats.clone();
     stats.merge(&hooks::counts());
+    let soft = std::mem::take(&mut ex.soft);
     drop(ex);
     rm_rf(&dir);
     CaseOut {
         ops,
+        soft,
         dev,
         stats,
         class,
@@ -470,6 +524,18 @@ pub fn main(args: &Args) -> i32 {
             ("flushes", J::U(flushes)),
             ("reopens", J::U(out.stats.get("op.reopen"))),
         ]));
+        if let Some(d) = out.soft.first() {
+            let path = write_replay(&property, seed, idx, &out, &out.desc);
+            emit(&J::obj(vec![
+                ("t", J::s("violation")),
+                ("property", J::s(property.clone())),
+                ("sig", J::s(d.sig.clone())),
+                ("detail", J::s(d.detail.clone())),
+                ("replay", J::s(path)),
+                ("idx", J::U(idx)),
+                ("soft", J::Bool(true)),
+            ]));
+        }
         if let Some(d) = &out.dev {
             if d.sig.starts_with("inconclusive") {
                 emit(&J::obj(vec![
@@ -548,6 +614,16 @@ pub fn replay_main(args: &Args) -> i32 {
     let thorough = args.str("tier", "quick") == "thorough";
     let plan = plan(&property, seed, idx, thorough);
     let out = run_case(&plan, seed, idx, Some(ops));
+    for d in &out.soft {
+        println!("replay: known-class deviation {} :: {}", d.sig, d.detail);
+        emit(&J::obj(vec![
+            ("t", J::s("violation")),
+            ("property", J::s(property.clone())),
+            ("sig", J::s(d.sig.clone())),
+            ("detail", J::s(d.detail.clone())),
+            ("replay", J::s(path.clone())),
+        ]));
+    }
     match out.dev {
         None => {
             println!("replay: no deviation ({} ops)", out.ops.len());
